@@ -863,3 +863,45 @@ def placement_query_rule(ctx, rid: str, prefixes, floor: int = 1):
                     ctx.ob(rid, f'{m.name}.{fn.name}:placement#{k}:{c.func.attr}', ok, '' if ok else
                            f'`{ast.unparse(c)[:80]}` schedules by qubits alone and the function never looks at measurement / control keys: a classically controlled operation and a '
                            're-measurement of its key on other qubits can swap places', m.rel, c.lineno)
+
+
+# ---------------------------------------------------------------------------------------------------------------------
+# Operations that only *read* a measurement key commute with each other: they are placed in any order, so the entry "latest
+# moment that reads key k" must be a running maximum.  (A re-measurement of k has to stay behind all of them.)
+def control_index_monotone_rule(ctx, rid: str, prefixes, floor: int = 2):
+    repo = ctx.repo
+    ctx.rule(rid, 'latest reader of a key: wherever a placement routine records, for every control key of the operation it has just placed (`for key in <control keys of op>`), the moment '
+             'index of that operation in a dictionary, it stores max(<index>, <previous entry>) - operations controlled by the same key are placed in any order, a plain overwrite can '
+             'move the entry back and let a later measurement of the key slip in front of a reader', floor=floor, style='COH')
+    n = 0
+    for m in sorted(repo.modules.values(), key=lambda x: x.rel):
+        if not m.rel.startswith(tuple(prefixes)) or m.rel.endswith('_test.py') or '/contrib/' in m.rel or 'control_keys' not in m.src and 'ckeys' not in m.src:
+            continue
+        for fn in [f for f in ast.walk(m.tree) if isinstance(f, (ast.FunctionDef, ast.AsyncFunctionDef))]:
+            # names holding the control keys of an operation
+            ck_names = set()
+            for a in ast.walk(fn):
+                if isinstance(a, ast.Assign) and len(a.targets) == 1 and isinstance(a.targets[0], ast.Name) and any(
+                        (isinstance(c, ast.Call) and (call_name(c) or '').split('.')[-1] in ('control_keys', '_control_keys_')) for c in ast.walk(a.value)):
+                    ck_names.add(a.targets[0].id)
+            for lp in ast.walk(fn):
+                if not (isinstance(lp, ast.For) and isinstance(lp.target, ast.Name)):
+                    continue
+                it = lp.iter
+                is_ck = any(isinstance(c, ast.Call) and (call_name(c) or '').split('.')[-1] in ('control_keys', '_control_keys_') for c in ast.walk(it)) or \
+                    (isinstance(it, ast.Name) and it.id in ck_names)
+                if not is_ck:
+                    continue
+                kv = lp.target.id
+                for st in lp.body:
+                    if isinstance(st, ast.Assign) and len(st.targets) == 1 and isinstance(st.targets[0], ast.Subscript) and isinstance(st.targets[0].slice, ast.Name) \
+                            and st.targets[0].slice.id == kv and isinstance(st.targets[0].value, (ast.Name, ast.Attribute)):
+                        d = ast.unparse(st.targets[0].value)
+                        v = st.value
+                        ok = isinstance(v, ast.Call) and call_name(v) == 'max' and any(d in ast.unparse(a_) for a_ in v.args)
+                        n += 1
+                        ctx.ob(rid, f'{m.name}.{fn.name}:{d}[control key]', ok, '' if ok else
+                               f'`{ast.unparse(st)[:80]}` overwrites the entry of a control key: when the operation just placed sits earlier than another reader of the key, the entry '
+                               'moves back and a later measurement of the key may be placed in front of that reader', m.rel, st.lineno)
+    if n == 0:
+        raise AnalysisError(f'{rid}: no control-key index bookkeeping found')
